@@ -65,10 +65,10 @@ Qed.
 
 (** (3) *)
 Theorem subgraph_bool : vf2b_contract vf2b ->
-  forall use_filter induced names eattr child parent, gwf child -> gwf parent ->
-    (sub_iso vf2b use_filter induced names eattr child parent = true <->
-     contained induced (nm_sub names) (em_sub eattr) parent child).
-Proof. intros VB uf ind names eattr child parent WC WP. apply sub_iso_spec; auto. Qed.
+  forall use_filter induced nc ec names eattr child parent, gwf child -> gwf parent ->
+    (sub_iso vf2b use_filter induced nc ec names eattr child parent = true <->
+     contained induced (nm_subc nc names) (em_subc ec eattr) parent child).
+Proof. intros VB uf ind nc ec names eattr child parent WC WP. apply sub_iso_spec; auto. Qed.
 
 (** (4) *)
 Theorem embeddings : vf2b_contract vf2b -> enum_contract enum ->
@@ -88,8 +88,8 @@ Theorem filters_necessary :
   (forall gs e hi pi c, cache_inv gs c -> gwf (gnth gs hi) -> gwf (gnth gs pi) ->
      contained true (nm_eng e) (em_eng e) (gnth gs hi) (gnth gs pi) ->
      fst (pre_check e hi (gnth gs hi) pi (gnth gs pi) c) = true) /\
-  (forall induced names eattr child parent, gwf child -> gwf parent ->
-     contained induced (nm_sub names) (em_sub eattr) parent child -> sub_filter names eattr child parent = true).
+  (forall induced nc ec names eattr child parent, gwf child -> gwf parent ->
+     contained induced (nm_subc nc names) (em_subc ec eattr) parent child -> sub_filter nc ec names eattr child parent = true).
 Proof.
   split.
   - intros gs e hi pi c Hc WH WP C. rewrite pre_fst; auto.
@@ -104,8 +104,8 @@ Theorem filters_transparent : vf2b_contract vf2b -> enum_contract enum ->
   (forall gs e b hi pi c c', cache_inv gs c -> cache_inv gs c' -> gwf (gnth gs hi) -> gwf (gnth gs pi) ->
      fst (get_mappings vf2b enum (set_wl e b) hi (gnth gs hi) pi (gnth gs pi) c') =
      fst (get_mappings vf2b enum e hi (gnth gs hi) pi (gnth gs pi) c)) /\
-  (forall induced names eattr child parent, gwf child -> gwf parent ->
-     sub_iso vf2b true induced names eattr child parent = sub_iso vf2b false induced names eattr child parent).
+  (forall induced nc ec names eattr child parent, gwf child -> gwf parent ->
+     sub_iso vf2b true induced nc ec names eattr child parent = sub_iso vf2b false induced nc ec names eattr child parent).
 Proof.
   intros VB EN. split; [|split].
   - intros gs e b i j c c' Hc Hc' Wi Wj. rewrite !iso_fst; auto.
